@@ -768,33 +768,23 @@ func (f *SQLFormatter) formatExpression(expr ast.Expression) error {
 		// ORDER BY inside aggregate functions (STRING_AGG, ARRAY_AGG, etc.)
 		if len(e.OrderBy) > 0 {
 			f.builder.WriteString(" ")
-			f.writeKeyword("ORDER BY")
-			f.builder.WriteString(" ")
-			for i, orderBy := range e.OrderBy {
-				if i > 0 {
-					f.builder.WriteString(", ")
-				}
-				if err := f.formatExpression(orderBy.Expression); err != nil {
-					return err
-				}
-				if !orderBy.Ascending {
-					f.builder.WriteString(" ")
-					f.writeKeyword("DESC")
-				}
-				if orderBy.NullsFirst != nil {
-					f.builder.WriteString(" ")
-					f.writeKeyword("NULLS")
-					f.builder.WriteString(" ")
-					if *orderBy.NullsFirst {
-						f.writeKeyword("FIRST")
-					} else {
-						f.writeKeyword("LAST")
-					}
-				}
+			if err := f.formatOrderByList(e.OrderBy); err != nil {
+				return err
 			}
 		}
 
 		f.builder.WriteString(")")
+
+		// Ordered-set aggregates: PERCENTILE_CONT(0.5) WITHIN GROUP (ORDER BY x)
+		if len(e.WithinGroup) > 0 {
+			f.builder.WriteString(" ")
+			f.writeKeyword("WITHIN GROUP")
+			f.builder.WriteString(" (")
+			if err := f.formatOrderByList(e.WithinGroup); err != nil {
+				return err
+			}
+			f.builder.WriteString(")")
+		}
 
 		// Filter clause (SQL:2003 T612)
 		if e.Filter != nil {
@@ -955,6 +945,35 @@ func (f *SQLFormatter) formatExpression(expr ast.Expression) error {
 }
 
 // formatWindowSpec formats window specifications for window functions
+// formatOrderByList writes "ORDER BY item, item ..." with direction and NULLS placement
+func (f *SQLFormatter) formatOrderByList(items []ast.OrderByExpression) error {
+	f.writeKeyword("ORDER BY")
+	f.builder.WriteString(" ")
+	for i, orderBy := range items {
+		if i > 0 {
+			f.builder.WriteString(", ")
+		}
+		if err := f.formatExpression(orderBy.Expression); err != nil {
+			return err
+		}
+		if !orderBy.Ascending {
+			f.builder.WriteString(" ")
+			f.writeKeyword("DESC")
+		}
+		if orderBy.NullsFirst != nil {
+			f.builder.WriteString(" ")
+			f.writeKeyword("NULLS")
+			f.builder.WriteString(" ")
+			if *orderBy.NullsFirst {
+				f.writeKeyword("FIRST")
+			} else {
+				f.writeKeyword("LAST")
+			}
+		}
+	}
+	return nil
+}
+
 func (f *SQLFormatter) formatWindowSpec(spec *ast.WindowSpec) error {
 	if len(spec.PartitionBy) > 0 {
 		f.writeKeyword("PARTITION BY")
